@@ -279,6 +279,13 @@ func findNextNodeAfterComment(file *ast.File, commentPos token.Pos) token.Pos {
 			return true
 		}
 
+		// Comments attached to declarations are no code: an ordinary remark behind the
+		// closing brace of the enclosing construct is not "the following node"
+		switch n.(type) {
+		case *ast.CommentGroup, *ast.Comment:
+			return false
+		}
+
 		// Found a node after comment
 		if nextPos == token.NoPos || n.Pos() < nextPos {
 			nextPos = n.Pos()
